@@ -175,18 +175,16 @@ def run(ctx):
         if "error" in r:
             continue
         sh = [int(x, 16) for x in r["shares"]]
-        for j, s in enumerate(r["subsets"]):
-            ask("c08_reveal %s" % zpairs([(r["pts"][i], sh[i]) for i in s["ix"]]), ("prf", id(r), j))
+        ask("map c08_reveal [%s]" % "; ".join(zpairs([(r["pts"][i], sh[i]) for i in s["ix"]]) for s in r["subsets"]), ("prf", id(r)))
     for r in by.get("icp", []):
-        for j, s in enumerate(r["subsets"]):
-            ask("c08_coeffs %s" % zl(sub_pts(r, s)), ("icp", id(r), j))
+        ask("map c08_coeffs [%s]" % "; ".join(zl(sub_pts(r, s)) for s in r["subsets"]), ("icp", id(r)))
     for r in by.get("share", []):
         if "error" in r:
             continue
         sh = [int(x, 16) for x in r["shares"]]
-        ask("c08_share %d %s %s" % (int(r["secret"], 16), zl([int(x, 16) for x in r["coeffs"]]), zl(r["pts"])), ("share", id(r), -1))
-        for j, s in enumerate(r["subsets"]):
-            ask("c08_reveal %s" % zpairs([(r["pts"][i], sh[i]) for i in s["ix"]]), ("share", id(r), j))
+        ask("(c08_share %d %s %s, map c08_reveal [%s])" % (
+            int(r["secret"], 16), zl([int(x, 16) for x in r["coeffs"]]), zl(r["pts"]),
+            "; ".join(zpairs([(r["pts"][i], sh[i]) for i in s["ix"]]) for s in r["subsets"])), ("share", id(r)))
     pairs = sorted({(r["a"], r["b"]) for r in by.get("leq", [])} | {(r["counter"], r["max"]) for r in by.get("cred", [])})
     for a, b in pairs:
         ask("(c08_counter_ok %d %d, c08_range_stmt %d %d)" % (a, b, a, b), ("leq", a, b))
@@ -200,11 +198,20 @@ def run(ctx):
         terms = c.coq_eval(ctx, "c08", "From Coq Require Import ZArith List. Import ListNotations.\n"
                            "From CB Require Import Crypto.IdPipeline.", [exprs[i] for i in order], shard=max(1, per), timeout=1500)
         for i, t in zip(order, terms):
-            model[slots[i]] = t
+            tag = slots[i]
+            if tag[0] in ("prf", "icp"):
+                for j, x in enumerate(t):
+                    model[(tag[0], tag[1], j)] = x
+            elif tag[0] == "share":
+                model[("share", tag[1], -1)] = t[0]
+                for j, x in enumerate(t[1]):
+                    model[("share", tag[1], j)] = x
+            else:
+                model[tag] = t
     except Exception as e:  # the model does not build/evaluate: a broken tie
         model_failed = repr(e)[-1500:]
         ctx.log("model evaluation failed:", model_failed)
-    ctx.cov["evaluations"] += len(exprs)
+    ctx.cov["evaluations"] += len(model)
 
     lin_lines, lin_meta = [], []
 
